@@ -147,7 +147,12 @@ def _calculate_impedances(
         indices = delete(indices, limit_indices)
 
     if indices.size > 0:
-        Z[indices] = func(f[indices])
+        try:
+            Z[indices] = func(f[indices])
+        except OverflowError:
+            # Plain Python floats (e.g., parameter values raised to large
+            # powers) raise instead of returning inf like NumPy arrays do.
+            raise InfiniteImpedance("Encountered an infinite impedance")
 
     if isinf(Z).any():
         raise InfiniteImpedance("Encountered an infinite impedance")
